@@ -438,6 +438,10 @@ class IrGenerator:
                 inp._test.result() is not False
             ), "internal error: while loops with always false argument should be filtered in the previous compiler stage"
 
+            if len(open_blocks) == 0:
+                # the loop is never reached (for example after `await false`)
+                return open_blocks
+
             ctx = ir.StatemachineContext.get()
 
             if ctx.at_start():
